@@ -40,27 +40,68 @@ static void direct(int zone, bool northp, double lat, double lon, double& x, dou
   else PolarStereographic::UPS().Forward(northp, lat, lon, x, y, g, k);
 }
 
+// bit-equal, or both NaN written by the library (not the sentinel)
+static bool eqd(double a, double b) {
+  if (vt::bits(a) == vt::bits(b)) return true;
+  bool sa = false, sb = false; for (unsigned j = 1; j <= 4; ++j) { sa = sa || vt::is_sentinel(a, j); sb = sb || vt::is_sentinel(b, j); }
+  return std::isnan(a) && std::isnan(b) && !sa && !sb;
+}
+
+// one observation of a Forward overload: outputs start as sentinels; when the call throws it is repeated with the
+// other initial value of northp (northp may have been "written" with the value it already had)
+struct FwdObs { string res; int zone; bool northp; double x, y, g, k; bool untouched; };
+template<class F> static FwdObs obs_fwd(F call) {
+  FwdObs o; o.zone = -99; o.northp = true; o.x = vt::sentinel(1); o.y = vt::sentinel(2); o.g = vt::sentinel(3); o.k = vt::sentinel(4);
+  o.res = guarded([&] { call(o.zone, o.northp, o.x, o.y, o.g, o.k); });
+  o.untouched = o.zone == -99 && o.northp && vt::is_sentinel(o.x, 1) && vt::is_sentinel(o.y, 2) && vt::is_sentinel(o.g, 3) && vt::is_sentinel(o.k, 4);
+  if (o.res == "throw") {
+    int z2 = -99; bool n2 = false; double x2 = vt::sentinel(1), y2 = vt::sentinel(2), g2 = vt::sentinel(3), k2 = vt::sentinel(4);
+    guarded([&] { call(z2, n2, x2, y2, g2, k2); });
+    o.untouched = o.untouched && z2 == -99 && !n2 && vt::is_sentinel(x2, 1) && vt::is_sentinel(y2, 2);
+  }
+  return o;
+}
+// same outcome of two Forward observations (gk: compare convergence and scale as well)
+static bool same_fwd(const FwdObs& p, const FwdObs& q, bool gk) {
+  return p.res == q.res && p.zone == q.zone && p.northp == q.northp && eqd(p.x, q.x) && eqd(p.y, q.y) && p.untouched == q.untouched
+    && (!gk || (eqd(p.g, q.g) && eqd(p.k, q.k)));
+}
+
+struct RevObs { string res; double lat, lon, g, k; bool untouched; };
+template<class F> static RevObs obs_rev(F call) {
+  RevObs o; o.lat = vt::sentinel(1); o.lon = vt::sentinel(2); o.g = vt::sentinel(3); o.k = vt::sentinel(4);
+  o.res = guarded([&] { call(o.lat, o.lon, o.g, o.k); });
+  o.untouched = vt::is_sentinel(o.lat, 1) && vt::is_sentinel(o.lon, 2) && vt::is_sentinel(o.g, 3) && vt::is_sentinel(o.k, 4);
+  return o;
+}
+static bool same_rev(const RevObs& p, const RevObs& q, bool gk) {   // outputs start from the same sentinels: bit equality covers "untouched"
+  return p.res == q.res && eqd(p.lat, q.lat) && eqd(p.lon, q.lon) && (!gk || (eqd(p.g, q.g) && eqd(p.k, q.k)));
+}
+// outcome class of a Reverse observation: "nan" = returned normally with every output NaN
+static string rev_class(const RevObs& o, bool gk) {
+  if (o.res == "ok" && std::isnan(o.lat) && std::isnan(o.lon) && (!gk || (std::isnan(o.g) && std::isnan(o.k)))
+      && !vt::is_sentinel(o.lat, 1) && !vt::is_sentinel(o.lon, 2)) return "nan";
+  return o.res;
+}
+
 static void do_sz(const vector<string>& t) {
   long long a = atoll(t[1].c_str()), b = atoll(t[3].c_str()); int da = atoi(t[2].c_str()), db = atoi(t[4].c_str());
   int s = atoi(t[5].c_str()); int zone = -99;
   string res = guarded([&] { zone = UTMUPS::StandardZone(vt::eps(a, da), vt::eps(b, db), s); });
-  Rec r; r.str("e", "sz").li("lat", {a, da}).li("lon", {b, db}).i("s", s).str("out", res).i("zone", zone); r.emit();
+  // the same point with setzone omitted ("if omitted, use the standard rules")
+  int dzone = -99; string dres = guarded([&] { dzone = UTMUPS::StandardZone(vt::eps(a, da), vt::eps(b, db)); });
+  Rec r; r.str("e", "sz").li("lat", {a, da}).li("lon", {b, db}).i("s", s).str("out", res).i("zone", zone)
+    .str("dout", dres).i("dzone", dzone); r.emit();
 }
 
 static void do_fwd(const vector<string>& t) {
   long long a = atoll(t[1].c_str()), b = atoll(t[3].c_str()); int da = atoi(t[2].c_str()), db = atoi(t[4].c_str());
   int s = atoi(t[5].c_str()); bool m = atoi(t[6].c_str()) != 0;
   double lat = vt::eps(a, da), lon = vt::eps(b, db);
-  int zone = -99; bool northp = true; double x = vt::sentinel(1), y = vt::sentinel(2), g = vt::sentinel(3), k = vt::sentinel(4);
-  string res = guarded([&] { UTMUPS::Forward(lat, lon, zone, northp, x, y, g, k, s, m); });
-  bool untouched = zone == -99 && northp && vt::is_sentinel(x, 1) && vt::is_sentinel(y, 2) && vt::is_sentinel(g, 3) && vt::is_sentinel(k, 4);
-  if (res == "throw") { // northp may have been "written" with the same value: repeat with the other initial value
-    int z2 = -99; bool n2 = false; double x2 = vt::sentinel(1), y2 = vt::sentinel(2), g2 = vt::sentinel(3), k2 = vt::sentinel(4);
-    guarded([&] { UTMUPS::Forward(lat, lon, z2, n2, x2, y2, g2, k2, s, m); });
-    untouched = untouched && z2 == -99 && !n2 && vt::is_sentinel(x2, 1) && vt::is_sentinel(y2, 2);
-  }
+  FwdObs o = obs_fwd([&](int& z, bool& n, double& x, double& y, double& g, double& k) { UTMUPS::Forward(lat, lon, z, n, x, y, g, k, s, m); });
+  const string& res = o.res; int zone = o.zone; bool northp = o.northp; double x = o.x, y = o.y, g = o.g, k = o.k;
   Rec r; r.str("e", "fwd").li("lat", {a, da}).li("lon", {b, db}).i("s", s).b("m", m).str("out", res)
-    .i("zone", zone).b("northp", northp).b("untouched", untouched);
+    .i("zone", zone).b("northp", northp).b("untouched", o.untouched);
   // direct projection for the zone the specification expects (sent back so that the spec can classify the rectangle)
   int ez = -99; guarded([&] { ez = UTMUPS::StandardZone(lat, lon, s); });
   bool np = !signbit(lat);
@@ -69,6 +110,20 @@ static void do_fwd(const vector<string>& t) {
   r.b("hd", havedirect).li("tx", nm(x1)).li("ty", nm(y1));
   r.li("x", res == "ok" ? nm(x) : vector<long long>{0, 0}).li("y", res == "ok" ? nm(y) : vector<long long>{0, 0});
   r.b("gkeq", res == "ok" && vt::bits(g) == vt::bits(g1) && vt::bits(k) == vt::bits(k1));
+  // reported scale in units of 1e-9 (the spec knows the documented central scale factors)
+  r.i("kq", res == "ok" && std::isfinite(k) ? clipq(k, 1e-9L) : -1);
+  // the overload without gamma, k, same (setzone, mgrslimits): "UTMUPS::Forward without returning convergence and scale"
+  FwdObs o6 = obs_fwd([&](int& z, bool& n, double& x, double& y, double&, double&) { UTMUPS::Forward(lat, lon, z, n, x, y, s, m); });
+  r.b("ov", same_fwd(o6, o, false));
+  // omitted arguments: mgrslimits omitted == false; setzone omitted == STANDARD (both overloads)
+  FwdObs es = m ? obs_fwd([&](int& z, bool& n, double& x, double& y, double& g, double& k) { UTMUPS::Forward(lat, lon, z, n, x, y, g, k, s, false); }) : o;
+  FwdObs dm8 = obs_fwd([&](int& z, bool& n, double& x, double& y, double& g, double& k) { UTMUPS::Forward(lat, lon, z, n, x, y, g, k, s); });
+  FwdObs dm6 = obs_fwd([&](int& z, bool& n, double& x, double& y, double&, double&) { UTMUPS::Forward(lat, lon, z, n, x, y, s); });
+  FwdObs e8 = obs_fwd([&](int& z, bool& n, double& x, double& y, double& g, double& k) { UTMUPS::Forward(lat, lon, z, n, x, y, g, k, UTMUPS::STANDARD, false); });
+  FwdObs d8 = obs_fwd([&](int& z, bool& n, double& x, double& y, double& g, double& k) { UTMUPS::Forward(lat, lon, z, n, x, y, g, k); });
+  FwdObs d6 = obs_fwd([&](int& z, bool& n, double& x, double& y, double&, double&) { UTMUPS::Forward(lat, lon, z, n, x, y); });
+  r.b("dflt", same_fwd(dm8, es, true) && same_fwd(dm6, es, false) && same_fwd(d8, e8, true) && same_fwd(d6, e8, false));
+  r.str("dout", d8.res).i("dzone", d8.zone);
   r.emit();
 }
 
@@ -76,13 +131,55 @@ static void do_rev(const vector<string>& t) {
   int z = atoi(t[1].c_str()); bool n = atoi(t[2].c_str()) != 0;
   long long xk = atoll(t[3].c_str()), yk = atoll(t[5].c_str()); int dx = atoi(t[4].c_str()), dy = atoi(t[6].c_str());
   bool m = atoi(t[7].c_str()) != 0;
-  double lat = vt::sentinel(1), lon = vt::sentinel(2), g = vt::sentinel(3), k = vt::sentinel(4);
-  string res = guarded([&] { UTMUPS::Reverse(z, n, grid(xk, dx), grid(yk, dy), lat, lon, g, k, m); });
-  bool untouched = vt::is_sentinel(lat, 1) && vt::is_sentinel(lon, 2) && vt::is_sentinel(g, 3) && vt::is_sentinel(k, 4);
-  if (res == "ok" && std::isnan(lat) && std::isnan(lon) && std::isnan(g) && std::isnan(k) && !untouched) res = "nan";
+  double X = grid(xk, dx), Y = grid(yk, dy);
+  RevObs o = obs_rev([&](double& la, double& lo, double& g, double& k) { UTMUPS::Reverse(z, n, X, Y, la, lo, g, k, m); });
+  string res = rev_class(o, true);
+  double lat = o.lat, lon = o.lon, g = o.g, k = o.k;
   bool range = res == "ok" && fabs(lat) <= 90 && fabs(lon) <= 180 && std::isfinite(g) && k > 0;
   Rec r; r.str("e", "rev").i("z", z).b("n", n).li("x", {xk, dx}).li("y", {yk, dy}).b("m", m).str("out", res)
-    .b("untouched", untouched).b("range", range); r.emit();
+    .b("untouched", o.untouched).b("range", range);
+  // the overload without gamma, k, same mgrslimits
+  RevObs o6 = obs_rev([&](double& la, double& lo, double&, double&) { UTMUPS::Reverse(z, n, X, Y, la, lo, m); });
+  r.b("ov", same_rev(o6, o, false));
+  // mgrslimits omitted == false (both overloads)
+  RevObs e8 = m ? obs_rev([&](double& la, double& lo, double& g, double& k) { UTMUPS::Reverse(z, n, X, Y, la, lo, g, k, false); }) : o;
+  RevObs d8 = obs_rev([&](double& la, double& lo, double& g, double& k) { UTMUPS::Reverse(z, n, X, Y, la, lo, g, k); });
+  RevObs d6 = obs_rev([&](double& la, double& lo, double&, double&) { UTMUPS::Reverse(z, n, X, Y, la, lo); });
+  r.b("dflt", same_rev(d8, e8, true) && same_rev(d6, e8, false)).str("dout", rev_class(d8, true));
+  r.emit();
+}
+
+// lattice Transfer: the point (lat, lon) expressed in zone sin (optionally in the other hemisphere's convention),
+// transferred to (zout, nout).  ez: the zone the specification expects (-99: several admissible, on a zone edge).
+static void do_trl(const vector<string>& t) {
+  long long a = atoll(t[1].c_str()), b = atoll(t[3].c_str()); int da = atoi(t[2].c_str());
+  int sin = atoi(t[4].c_str()); bool flip = atoi(t[5].c_str()) != 0; int zout = atoi(t[6].c_str());
+  bool nout = atoi(t[7].c_str()) != 0; int ez = atoi(t[8].c_str());
+  double lat = vt::eps(a, da), lon = vt::eps(b, 0);
+  int zin = -99; bool nin = false; double x = 0, y = 0;
+  string f0 = guarded([&] { UTMUPS::Forward(lat, lon, zin, nin, x, y, sin); });
+  bool flipped = false;
+  const double shift = 1.0e7;   // UTMShift() as documented (10^7 m); not taken from the library
+  if (f0 == "ok" && flip && zin > 0) { y += (nin ? 1 : -1) * shift; nin = !nin; flipped = true; }
+  Rec r; r.str("e", "trl").li("lat", {a, da}).li("lon", {b, 0}).i("sin", sin).i("zin", zin).b("nin", nin).b("flipped", flipped)
+    .i("zout", zout).b("nout", nout).i("ez", ez).str("f0", f0);
+  double xo = vt::sentinel(1), yo = vt::sentinel(2); int zo = -99; string tres = "none";
+  if (f0 == "ok") tres = guarded([&] { UTMUPS::Transfer(zin, nin, x, y, zout, nout, xo, yo, zo); });
+  r.str("out", tres).i("zo", zo).b("untouched", vt::is_sentinel(xo, 1) && vt::is_sentinel(yo, 2) && zo == -99);
+  // reference through geographic coordinates, in the zone the specification expects (or, on an edge, the zone returned)
+  string rres = "none"; bool hm = false; long long err = -1; int zr = -99;
+  int zt = ez != -99 ? ez : (tres == "ok" ? zo : -99);
+  if (f0 == "ok" && zt >= 0) {
+    double la = 0, lo = 0, xr = 0, yr = 0; bool nr = false;
+    rres = guarded([&] { UTMUPS::Reverse(zin, nin, x, y, la, lo); UTMUPS::Forward(la, lo, zr, nr, xr, yr, zt); });
+    if (rres == "ok") {
+      hm = zr == 0 && nr != nout;                       // UPS point in the other hemisphere
+      if (zr > 0 && nr != nout) yr += (nout ? -1 : 1) * shift;
+      if (tres == "ok") { long double d = hypotl((long double)xo - xr, (long double)yo - yr) * 1e9L; err = d > 2e9L ? 2000000000LL : (long long) ceill(d); }
+    }
+  }
+  r.str("ref", rres).b("hm", hm).i("zr", zr).i("err", err);
+  r.emit();
 }
 
 static void do_zs(const vector<string>& t) {
@@ -95,7 +192,15 @@ static void do_zs(const vector<string>& t) {
 static void do_ze(const vector<string>& t) {
   int z = atoi(t[1].c_str()); bool n = atoi(t[2].c_str()) != 0, a = atoi(t[3].c_str()) != 0; string out;
   string res = guarded([&] { out = UTMUPS::EncodeZone(z, n, a); });
-  Rec r; r.str("e", "ze").i("z", z).b("n", n).b("a", a).str("out", res).li("code", vt::codes(out)); r.emit();
+  Rec r; r.str("e", "ze").i("z", z).b("n", n).b("a", a).str("out", res).li("code", vt::codes(out));
+  // "This reverses UTMUPS::DecodeZone": feed the library's own string back into the library
+  int z2 = -99; bool n2 = !n; string res2 = "none";
+  if (res == "ok") res2 = guarded([&] { UTMUPS::DecodeZone(out, z2, n2); });
+  r.str("out2", res2).i("z2", z2).b("n2", n2);
+  // abbrev omitted == true
+  string dcode; string dres = guarded([&] { dcode = UTMUPS::EncodeZone(z, n); });
+  r.str("dout", dres).li("dcode", vt::codes(dcode));
+  r.emit();
 }
 static void do_epsgd(const vector<string>& t) {
   int e = atoi(t[1].c_str()); int z = -99; bool n = true; string res = guarded([&] { UTMUPS::DecodeEPSG(e, z, n); });
@@ -171,6 +276,12 @@ static void do_record(uint64_t seed, long long n) {
       double lat = g.uni(-85, 88), lon = g.uni(-180, 180);
       int zin = -99; bool nin = false; double x = 0, y = 0;
       string f0 = guarded([&] { UTMUPS::Forward(lat, lon, zin, nin, x, y, UTMUPS::STANDARD); });
+      // one time in three express the point in a neighbouring zone (where that is in range), so that zonein is not the standard zone
+      if (f0 == "ok" && zin > 0 && g.range(0, 2) == 0) {
+        int zs = zin + (g.coin() ? 1 : -1); zs = zs < 1 ? 60 : zs > 60 ? 1 : zs;
+        int z1 = -99; bool n1 = false; double x1 = 0, y1 = 0;
+        if (guarded([&] { UTMUPS::Forward(lat, lon, z1, n1, x1, y1, zs); }) == "ok") { zin = z1; nin = n1; x = x1; y = y1; }
+      }
       // one time in three give the UTM input in the other hemisphere's convention (false northing shifted by 10000 km), where that is in range
       bool flipped = false;
       if (f0 == "ok" && zin > 0 && g.range(0, 2) == 0) {
@@ -179,6 +290,14 @@ static void do_record(uint64_t seed, long long n) {
       }
       int zout = int(g.range(-3, 60)); if (g.coin() && zin > 0) zout = max(1, min(60, zin + int(g.range(-1, 1))));
       bool nout = g.range(0, 3) == 0 ? !nin : nin;
+      // one time in eight: a transfer within one zone (or by MATCH) whose input must be refused (coordinates outside the documented
+      // ranges, zone number out of range or a pseudo-zone); the reference below goes through Reverse, which refuses it
+      if (f0 == "ok" && g.range(0, 7) == 0) {
+        int w = int(g.range(0, 5));
+        if (w == 0) x = zin > 0 ? 5.0e6 : 9.0e6; else if (w == 1) y = nin ? 9.7e6 : 19.7e6; else if (w == 2) y = nin ? -9.2e6 : 0.8e6;
+        else if (w == 3) zin = 61; else if (w == 4) zin = -int(g.range(1, 4)); else x = -1.0;
+        zout = g.coin() ? zin : int(UTMUPS::MATCH); nout = g.coin() ? nin : !nin;
+      }
       double xo = vt::sentinel(1), yo = vt::sentinel(2); int zo = -99;
       string tres = guarded([&] { UTMUPS::Transfer(zin, nin, x, y, zout, nout, xo, yo, zo); });
       // reference: through geographic coordinates
@@ -217,7 +336,7 @@ int main(int argc, char** argv) {
       auto t = vt::split(line); if (t.empty()) continue;
       if (t[0] == "sz") do_sz(t); else if (t[0] == "fwd") do_fwd(t); else if (t[0] == "rev") do_rev(t);
       else if (t[0] == "zs") do_zs(t); else if (t[0] == "ze") do_ze(t); else if (t[0] == "epsgd") do_epsgd(t);
-      else if (t[0] == "epsge") do_epsge(t);
+      else if (t[0] == "epsge") do_epsge(t); else if (t[0] == "trl") do_trl(t);
     }
     return 0;
   }
